@@ -135,7 +135,7 @@ def cases(ctx):
     scopes = []
     for ci, progs in enumerate(configs):
         kind = ci % 2
-        cap = ctx.n(1500, 25000)
+        cap = ctx.n(400, 25000)
         n = 0
         for sched, views, info in all_schedules(kind, progs, cap):
             case = [kind, progs, sched]
@@ -146,7 +146,7 @@ def cases(ctx):
         total += n
     ctx.notes["exhaustive"] = True
     ctx.notes["exhaustive_scope"] = "every schedule (one lock/event operation per step) of: " + "; ".join(scopes)
-    for i in range(ctx.n(300, 4000)):
+    for i in range(ctx.n(200, 4000)):
         progs = gen_progs(rng, rng.choice([3, 4, 5, 6, 8]))
         sched, views, _, info = run_schedule(i % 2, progs, rng=rng)
         case = [i % 2, progs, sched]
@@ -154,7 +154,14 @@ def cases(ctx):
         yield "random", case
 
 
+def in_model(kind, case):
+    return case[0] != 3
+
+
 def impl(case):
+    if case[0] == 3:  # replay of a line-level schedule
+        fail = c12_lines.replay(case)
+        return [0] if fail is None else [1, fail["what"]]
     key = repr(case)
     if key in _cache:
         return _cache.pop(key)[0]
@@ -190,6 +197,10 @@ def oracle(ctx, kind, case, out):
 
     if isinstance(out, Err):
         fail("schedule runner failed: " + out.text, -1)
+        return F
+    if case[0] == 3:
+        if out[0]:
+            fail((out[1].decode("latin-1") if isinstance(out[1], bytes) else str(out[1])) + " (line-level preemption)", -1)
         return F
     zk, progs, sched = case
     n = len(progs)
@@ -262,14 +273,17 @@ def oracle(ctx, kind, case, out):
     return F
 
 
+def generated_obligations(ctx):
+    return c12_astguard.generated_obligations(ctx)
+
+
 def extra(ctx):
-    F = []
-    F += c12_astguard.check(ctx)
-    F += c12_lines.check(ctx)
-    return F
+    return c12_lines.check(ctx)
 
 
 def widen(ctx, disagreements):
+    """a proof / the AST guard / the correspondence broke and the oracle saw nothing: search wider, at lock
+    granularity and with line-level preemption"""
     F = []
     rng = ctx.rng
     for i in range(1500):
@@ -277,11 +291,22 @@ def widen(ctx, disagreements):
         sched, views, _, info = run_schedule(i % 2, progs, rng=rng)
         case = [i % 2, progs, sched]
         f = oracle(ctx, "widen", case, views)
-        if info["deadlock"]:
-            f.append({"kind": "C12:deadlock", "what": "deadlock", "sig": "deadlock"})
         if f:
             f[0]["case"] = case
             F.append(f[0])
-            if len(F) >= 3:
-                break
+            break
+    for i in range(3000):
+        progs = gen_progs(rng, rng.choice([2, 3, 4]))
+        stick = rng.choice([0.0, 0.5, 0.8, 0.95])
+
+        def chooser(j, en, last, stick=stick):
+            if last in en and rng.random() < stick:
+                return last
+            return rng.choice(en)
+
+        sched, fail = c12_lines.run_line_schedule(progs, i % 2, chooser)
+        if fail is not None:
+            F.append({"kind": "C12:lines:" + fail["what"], "what": fail["what"] + " (line-level preemption)",
+                      "sig": "lines:" + fail["what"], "case": [3, i % 2, progs, sched]})
+            break
     return F
